@@ -39,6 +39,10 @@ def finding_matches(f, prop, fail):
         return False
     if f.get("detail") and f["detail"] != fail.get("detail", ""):
         return False
+    # a finding of the bounded sweep is pinned to the scenario that shows it: another failing scenario of the same clause is a new violation
+    w = fail.get("sweep_witness")
+    if f.get("scenario") and w and w.get("scenario") != f["scenario"]:
+        return False
     return True
 
 
@@ -52,7 +56,8 @@ def thorough_extras(prop, cfg, infra):
         for seed in (7, 1234):
             try:
                 r = verus_unit.run_unit(un, extra_args=("--smt-option", "smt.random_seed=%d" % seed))
-                bad = [f["obligation"] for f in r["failures"] if f["label"].startswith(prop + ".") or f["label"] == "proof-step"]
+                open_known = set(k.get("obligation") for k in load_known() if k.get("status") == "open" and k.get("property") == prop)
+                bad = [f["obligation"] for f in r["failures"] if (f["label"].startswith(prop + ".") or f["label"] == "proof-step") and f["obligation"] not in open_known]
                 stab.append(dict(unit=un, seed=seed, stable=not bad and not r["infra"], failed=bad[:5]))
                 if bad or r["infra"]:
                     infra.append("unit %s: proof not stable under smt.random_seed=%d (%s)" % (un, seed, (bad or r["infra"])[:2]))
@@ -91,8 +96,10 @@ def thorough_extras(prop, cfg, infra):
                     r = verus_unit.run_unit(un)
                 except (AnchorLost, Infra) as e:
                     why.append("unit %s undecided: %s" % (un, str(e)[:120])); continue
+                open_known = set(k.get("obligation") for k in load_known() if k.get("status") == "open" and k.get("property") == prop)
                 hits = [f["obligation"] + ((" [" + f["detail"] + "]") if f.get("detail") else "") for f in r["failures"]
-                        if f["label"].startswith(prop + ".") or f["label"] == "proof-step" or (prop == "C10" and f["label"] == "C10.safety")]
+                        if (f["label"].startswith(prop + ".") or f["label"] == "proof-step" or (prop == "C10" and f["label"] == "C10.safety"))
+                        and f["obligation"] not in open_known]   # an obligation that already fails on the unchanged tree (open known finding) catches nothing
                 if hits:
                     caught = True; why = hits[:4]; break
                 if r["infra"]:
